@@ -387,7 +387,7 @@ fn rand_grammar_pattern(rng: &mut Rng, ty: &str) -> String {
         let j = rng.below(i as u64 + 1) as usize;
         chosen.swap(i, j);
     }
-    const SEPS: [&str; 10] = ["-", "/", ":", ".", " ", ", ", "'T'", "' at '", "'o''clock '", "_"];
+    const SEPS: [&str; 16] = ["-", "/", ":", ".", " ", ", ", "'T'", "' at '", "'o''clock '", "_", "年", "·", " → ", "é", "'日'", "(#)"];
     let mut p = String::new();
     if rng.chance(1, 6) {
         p.push_str(*rng.pick(&SEPS));
@@ -666,6 +666,36 @@ pub fn families(args: &[String]) {
                 for s in all_strings(&alphabet_of(f), f["maxlen"].as_u64().unwrap() as usize) {
                     run(json!({"op": "fromstr_any", "ty": ty, "s": chars(&s)}), &mut w, &mut total, &mut classes, &mut samples);
                     run(json!({"op": "serde_any", "ty": ty, "s": chars(&s)}), &mut w, &mut total, &mut classes, &mut samples);
+                }
+            }
+            "family_nines" => {
+                let ty = gs(f, "ty");
+                let p = unchars(&f["p"]);
+                let vals = match ty {
+                    "date" => vec![json!({"ty": "date", "dn": 3_652_058}), json!({"ty": "date", "dn": 738_276})],
+                    "time" => vec![json!({"ty": "time", "sod": 86_399, "ns": 999_999_999, "off": 0}), json!({"ty": "time", "sod": 0, "ns": 0, "off": -3600})],
+                    _ => vec![json!({"ty": "dt", "dn": 3_652_058, "sod": 86_399, "ns": 999_999_999, "off": 0}),
+                              json!({"ty": "dt", "dn": 738_276, "sod": 43_200, "ns": 5, "off": 3600})],
+                };
+                for val in vals {
+                    let base = match fmt_val(&val_from_json(&val), &p) {
+                        Value::Array(a) => a.iter().map(|c| c.as_str().unwrap_or("").to_string()).collect::<Vec<_>>(),
+                        _ => continue,
+                    };
+                    let digit = |c: &String| c.len() == 1 && c.as_bytes()[0].is_ascii_digit();
+                    let mut variants: Vec<Vec<String>> = vec![base.clone()];
+                    variants.push(base.iter().map(|c| if digit(c) { "9".to_string() } else { c.clone() }).collect());
+                    variants.push(base.iter().map(|c| if digit(c) { "0".to_string() } else { c.clone() }).collect());
+                    for i in 0..base.len() {
+                        if digit(&base[i]) {
+                            let mut t = base.clone();
+                            t[i] = "9".to_string();
+                            variants.push(t);
+                        }
+                    }
+                    for v in variants {
+                        run(json!({"op": "parse_any", "ty": ty, "s": chars(&v.concat()), "p": chars(&p)}), &mut w, &mut total, &mut classes, &mut samples);
+                    }
                 }
             }
             other => {
